@@ -1,4 +1,5 @@
 import ArrProofs.Lemmas.C11Column
+import ArrProofs.Lemmas.C11Empty
 /-!
 # C11 — joining lays the inputs contiguously along the axis; splitting is its inverse
 
@@ -342,5 +343,175 @@ example : stack [(⟨[], [0, 2]⟩ : Arr Nat), ⟨[], [0, 2]⟩] 0 (some 1) = .o
 example : columnStack [(⟨[1, 2], [2]⟩ : Arr Nat), ⟨[3, 4, 5, 6], [2, 2]⟩] 0 = .ok ⟨[1, 3, 4, 2, 5, 6], [2, 3]⟩ := by decide +kernel
 example : ColOK 2 (⟨[1, 2], [2]⟩ : Arr Nat) ∧ ColOK 2 (⟨[3, 4, 5, 6], [2, 2]⟩ : Arr Nat) :=
   ⟨⟨by decide, Or.inl rfl⟩, ⟨by decide, Or.inr ⟨2, rfl⟩⟩⟩
+
+/-! ## 8. arrays with a zero-length axis, and totality of splitting (no hypothesis on the shape) -/
+
+/-- **a well-formed array with a zero-length axis is returned whole, as the single piece `[a]`, by every splitting
+function** — after the refusals, in the order each function has them: `array_split` refuses zero parts first and then an
+axis outside the rank, `split` the other way round, `split_axis` only the axis; `hsplit` refuses zero parts, `vsplit` /
+`dsplit` refuse ranks below 2 / 3 first and then zero parts.  The part count is otherwise irrelevant: `split` does NOT
+examine whether it divides the axis length (a `[2,0]` array split in 3 along axis 0 is `Ok([a])`). -/
+theorem split_zero_axis (a : Arr α) (zero : α) (parts k : Nat) (hwf : a.WF) (hz : 0 ∈ a.shape) :
+    a.arraySplit zero parts (some k) =
+      (if parts = 0 then .err .ParameterError else if a.ndim ≤ k then .err .AxisOutOfBounds else .ok [a]) ∧
+    a.arraySplit zero parts none = (if parts = 0 then .err .ParameterError else .ok [a]) ∧
+    a.split zero parts (some k) =
+      (if a.ndim ≤ k then .err .AxisOutOfBounds else if parts = 0 then .err .ParameterError else .ok [a]) ∧
+    a.split zero parts none = (if parts = 0 then .err .ParameterError else .ok [a]) ∧
+    a.splitAxis zero k = (if a.ndim ≤ k then .err .AxisOutOfBounds else .ok [a]) ∧
+    a.hsplit zero parts = (if parts = 0 then .err .ParameterError else .ok [a]) ∧
+    a.vsplit zero parts =
+      (if a.ndim = 1 then .err .UnsupportedDimension else if parts = 0 then .err .ParameterError else .ok [a]) ∧
+    a.dsplit zero parts =
+      (if a.ndim = 1 ∨ a.ndim = 2 then .err .UnsupportedDimension
+       else if parts = 0 then .err .ParameterError else .ok [a]) := by
+  have he := isEmpty_of_zero_mem a hwf hz
+  have hnd := ndim_pos_of_zero_mem a hz
+  refine ⟨?_, ?_, ?_, ?_, ?_, ?_, ?_, ?_⟩
+  · rw [arraySplit_empty a zero parts _ he]
+    by_cases hk : a.ndim ≤ k <;> simp [hk]
+  · rw [arraySplit_empty a zero parts _ he]; simp
+  · rw [split_empty a zero parts _ he]
+    by_cases hk : a.ndim ≤ k <;> simp [hk]
+  · rw [split_empty a zero parts _ he]; simp
+  · rw [splitAxis_empty a zero k he]
+  · exact hsplit_empty a zero parts he hnd
+  · rw [vsplit_empty a zero parts he]
+    by_cases h1 : a.ndim = 1
+    · rw [if_pos (.inr h1), if_pos h1]
+    · rw [if_neg (by omega), if_neg h1]
+  · rw [dsplit_empty a zero parts he]
+    by_cases h1 : a.ndim = 1 ∨ a.ndim = 2
+    · rw [if_pos (by omega), if_pos h1]
+    · rw [if_neg (by omega), if_neg h1]
+
+/-- **`array_split` is total on well-formed arrays** (no hypothesis on the shape, the axis or the part count): the answer
+is `Err(ParameterError)` exactly for zero parts, otherwise `Err(AxisOutOfBounds)` exactly for an axis outside the rank,
+otherwise a list of pieces whose concatenation along the axis is the array itself. -/
+theorem arraySplit_total (a : Arr α) (zero : α) (parts k : Nat) (hwf : a.WF) :
+    (parts = 0 ∧ a.arraySplit zero parts (some k) = .err .ParameterError) ∨
+    (0 < parts ∧ a.ndim ≤ k ∧ a.arraySplit zero parts (some k) = .err .AxisOutOfBounds) ∨
+    (0 < parts ∧ k < a.ndim ∧ ∃ pieces, a.arraySplit zero parts (some k) = .ok pieces ∧
+      concatenate pieces zero (some k) = .ok a) := by
+  by_cases hp : parts = 0
+  · exact .inl ⟨hp, by unfold Arr.arraySplit; rw [if_pos hp]⟩
+  · by_cases hk : a.ndim ≤ k
+    · refine .inr (.inl ⟨by omega, hk, ?_⟩)
+      have hd : decide (k ≥ a.ndim) = true := by simpa using hk
+      unfold Arr.arraySplit; rw [if_neg hp]; simp only [hd, if_true]
+    · refine .inr (.inr ⟨by omega, by omega, ?_⟩)
+      have h := concat_split_id_axis a zero parts k hwf (by omega) (by omega)
+      cases hs : a.arraySplit zero parts (some k) with
+      | ok pieces => rw [hs, Res.bind_ok] at h; exact ⟨pieces, rfl, h⟩
+      | err e => rw [hs] at h; cases h
+      | panic => rw [hs] at h; cases h
+
+/-- **splitting never panics on a well-formed array** — every rank ≥ 0, zero-length axes included, every axis (inside the
+rank or not), every part count (zero included): `array_split`, `split`, `split_axis`, `hsplit`, `vsplit`, `dsplit`
+answer with data or with an error.  (With `axis = None` the same holds for rank ≥ 1, where `None` is axis 0; a rank-0
+receiver with `None` is outside the theorem — see the example below.) -/
+theorem split_total (a : Arr α) (zero : α) (parts k : Nat) (hwf : a.WF) :
+    a.arraySplit zero parts (some k) ≠ .panic ∧ a.split zero parts (some k) ≠ .panic ∧
+    a.splitAxis zero k ≠ .panic ∧ a.hsplit zero parts ≠ .panic ∧ a.vsplit zero parts ≠ .panic ∧
+    a.dsplit zero parts ≠ .panic ∧
+    (1 ≤ a.ndim → a.arraySplit zero parts none ≠ .panic ∧ a.split zero parts none ≠ .panic) := by
+  have hsp : ∀ k, a.arraySplit zero parts (some k) ≠ .panic ∧ a.split zero parts (some k) ≠ .panic := by
+    intro k
+    by_cases hz : 0 ∈ a.shape
+    · obtain ⟨h1, _, h3, _⟩ := split_zero_axis a zero parts k hwf hz
+      rw [h1, h3]
+      constructor
+      · split
+        · simp
+        · split <;> simp
+      · split
+        · simp
+        · split <;> simp
+    · exact split_no_panic a zero parts k hwf hz
+  refine ⟨(hsp k).1, (hsp k).2, splitAxis_no_panic a zero k hwf, ?_, ?_, ?_, ?_⟩
+  · unfold Arr.hsplit
+    split
+    · simp
+    · split
+      · simp
+      · split
+        · exact (hsp 0).2
+        · exact (hsp 1).2
+  · unfold Arr.vsplit
+    split
+    · simp
+    · split
+      · simp
+      · exact (hsp 0).2
+  · unfold Arr.dsplit
+    split
+    · simp
+    · split
+      · simp
+      · exact (hsp 2).2
+  · intro hnd
+    obtain ⟨g1, g2, _⟩ := none_axis_is_zero a zero parts hnd [] (by simp)
+    rw [g1, g2]
+    exact hsp 0
+
+/-- **the round trip for every well-formed array** (the statement of `concat_split_id_axis`, which carries no hypothesis
+on the shape, next to the total theorems), **and for `split`**: whenever `split` does not refuse — the array has a
+zero-length axis, or the part count divides the axis length — concatenating its pieces gives the array back. -/
+theorem concat_split_id_total (a : Arr α) (zero : α) (parts k : Nat) (hwf : a.WF) (hp : 0 < parts) (hk : k < a.ndim) :
+    (a.arraySplit zero parts (some k) >>= fun ps => concatenate ps zero (some k)) = .ok a ∧
+    ((0 ∈ a.shape ∨ a.shape.getD k 0 % parts = 0) →
+      (a.split zero parts (some k) >>= fun ps => concatenate ps zero (some k)) = .ok a) ∧
+    (a.splitAxis zero k >>= fun ps => concatenate ps zero (some k)) = .ok a := by
+  have h1 := concat_split_id_axis a zero parts k hwf hp hk
+  refine ⟨h1, ?_, ?_⟩
+  · intro h
+    by_cases hz : 0 ∈ a.shape
+    · rw [(split_zero_axis a zero parts k hwf hz).2.2.1, if_neg (by omega), if_neg (by omega), Res.bind_ok]
+      exact concatenate_singleton a zero k hk
+    · have hd : a.shape.getD k 0 % parts = 0 := by
+        rcases h with h | h
+        · exact absurd h hz
+        · exact h
+      rw [split_spec a zero parts k hwf hz hp hk, if_pos hd]
+      exact h1
+  · unfold Arr.splitAxis
+    rw [if_neg (by omega)]
+    split
+    · rw [Res.bind_ok]; exact concatenate_singleton a zero k hk
+    · rename_i hne
+      have hne' : ¬ (a.isEmpty = true) := by
+        intro he; apply hne; simp [he]
+      have hnz : 0 ∉ a.shape := fun hm => hne' (isEmpty_of_zero_mem a hwf hm)
+      have hk' : k < a.shape.length := hk
+      rw [idx_getD a.shape k hk', Res.bind_ok]
+      exact concat_split_id_axis a zero _ k hwf (getD_mem_pos _ _ hk' hnz) hk
+
+/-- **`stack` on a new LAST axis (`axis = rank`) is refused** with `AxisOutOfBounds` — by the code and by the model; more
+generally any axis that is not inside the rank of some input.  (The new axis can therefore only be created at positions
+`0 … rank-1`, `stack_at`; the position after the last axis is not reachable through `stack`.) -/
+theorem stack_axis_rank_refused (zero : α) (a0 : Arr α) (rest : List (Arr α)) :
+    stack (a0 :: rest) zero (some a0.ndim) = .err .AxisOutOfBounds ∧
+    ∀ k, (∃ b ∈ a0 :: rest, b.ndim ≤ k) → stack (a0 :: rest) zero (some k) = .err .AxisOutOfBounds :=
+  ⟨stack_axis_refused zero a0.ndim (a0 :: rest) ⟨a0, List.mem_cons_self, Nat.le_refl _⟩,
+   fun k h => stack_axis_refused zero k (a0 :: rest) h⟩
+
+/-! ### non-vacuity for section 8 -/
+
+example : (⟨[], [2, 0]⟩ : Arr Nat).WF ∧ 0 ∈ (⟨[], [2, 0]⟩ : Arr Nat).shape := by decide
+example : (⟨[], [2, 0]⟩ : Arr Nat).split 0 3 (some 0) = .ok [⟨[], [2, 0]⟩] := by decide
+example : (⟨[], [2, 0]⟩ : Arr Nat).arraySplit 0 0 (some 7) = .err .ParameterError := by decide
+example : (⟨[], [2, 0]⟩ : Arr Nat).split 0 0 (some 7) = .err .AxisOutOfBounds := by decide
+example : (⟨[], [0, 3]⟩ : Arr Nat).arraySplit 0 2 (some 1) = .ok [⟨[], [0, 3]⟩] := by decide
+example : (⟨[], [0, 3]⟩ : Arr Nat).hsplit 0 2 = .ok [⟨[], [0, 3]⟩] := by decide
+example : (⟨[], [0, 3]⟩ : Arr Nat).dsplit 0 2 = .err .UnsupportedDimension := by decide
+example : (⟨[], [2, 0, 3]⟩ : Arr Nat).dsplit 0 2 = .ok [⟨[], [2, 0, 3]⟩] := by decide
+example : (⟨[], [2, 0, 3]⟩ : Arr Nat).vsplit 0 0 = .err .ParameterError := by decide
+example : (⟨[], [2, 0, 3]⟩ : Arr Nat).splitAxis 0 2 = .ok [⟨[], [2, 0, 3]⟩] := by decide
+example : ((⟨[], [2, 0, 3]⟩ : Arr Nat).split 0 5 (some 2) >>= fun ps => concatenate ps 0 (some 2))
+    = .ok ⟨[], [2, 0, 3]⟩ := by decide
+example : stack [(⟨[1, 2], [2]⟩ : Arr Nat), ⟨[3, 4], [2]⟩] 0 (some 1) = .err .AxisOutOfBounds := by decide
+example := split_total (⟨[], [2, 0, 3]⟩ : Arr Nat) 0 4 1 (by decide)
+/-- the region left outside `split_total`: a rank-0 receiver with `axis = None` reaches `shape[0]` in the model -/
+example : (⟨[7], []⟩ : Arr Nat).WF ∧ (⟨[7], []⟩ : Arr Nat).arraySplit 0 1 none = .panic := by decide
 
 end ArrModel.C11
